@@ -212,12 +212,18 @@ func (p List) Struct(i int) Struct {
 	if !ok {
 		return Struct{}
 	}
+	depthLimit := p.depthLimit
+	if depthLimit > 0 {
+		// Saturate: a list reached at the depth limit must not hand out
+		// elements with a wrapped-around (effectively unlimited) budget.
+		depthLimit--
+	}
 	return Struct{
 		seg:        p.seg,
 		off:        addr,
 		size:       p.size,
 		flags:      isListMember,
-		depthLimit: p.depthLimit - 1,
+		depthLimit: depthLimit,
 	}
 }
 
